@@ -84,6 +84,7 @@ type Config struct {
 	Params      map[string]int
 	Trace       bool
 	SharedInit  bool
+	EagerInit   []string // packages initialised before the harness runs (registries the real program fills at start-up)
 }
 
 // Engine is one worker: term store, solver, and the state of the current path.
@@ -132,6 +133,7 @@ type Engine struct {
 	lastModel map[string]uint64
 	violSites map[string]bool
 	curFr     *frame
+	inInit    int
 }
 
 func NewEngine(cfg *Config) (*Engine, error) {
@@ -184,6 +186,7 @@ func (e *Engine) resetPath(prefix []int64) {
 	e.sched = nil
 	e.timers = nil
 	e.depth = 0
+	e.inInit = 0
 }
 
 // ---- symbols ----
@@ -536,6 +539,14 @@ func (e *Engine) RunPath(entry *ssa.Function, prefix []int64) (res *PathResult, 
 				}
 			}
 		}()
+		for _, pth := range e.cfg.EagerInit {
+			if e.prog.ImportedPackage(pth) != nil {
+				e.InitPackage(pth)
+			}
+		}
+		if entry.Pkg != nil {
+			e.InitPackage(entry.Pkg.Pkg.Path())
+		}
 		e.callFunction(nil, entry, nil, nil)
 		if e.sched != nil {
 			e.sched.finishMain()
